@@ -452,7 +452,9 @@ pub fn well_formed(e: &E) -> bool {
         E::Effect(v, body) => {
             // after a value, or after a closed group (the block then joins the group's content)
             (matches!(**v, E::Int(_) | E::Float(_) | E::Str(_) | E::Sym(_) | E::Unit | E::True | E::False | E::Input | E::Ident(_))
-                || matches!(&**v, E::Group(g) if well_formed(g) && !matches!(**g, E::Effect(..) | E::Seq(..))))
+                || matches!(&**v, E::Group(g) if well_formed(g) && !matches!(**g, E::Effect(..) | E::Seq(..)))
+                // or after a finished suffix operation (only C18's rewrites build this)
+                || matches!(&**v, E::Un(u, x) if u.suffix() && well_formed(x) && !matches!(**x, E::Seq(..) | E::Effect(..))))
                 && well_formed(body)
                 && !matches!(**body, E::Effect(..))
         }
